@@ -99,6 +99,35 @@ pub fn opt_insert<K, V>(g: &mut Option<OrderedMap<K, V>>, k: K, v: V) -> (r: Opt
         match r { Some(o) => omap(*old(g)).contains_key(k) && o == omap(*old(g))[k], None => !omap(*old(g)).contains_key(k) },
 { unimplemented!() }
 
+impl<K, V> OrderedMap<K, V> {
+    #[verifier::external_body]
+    pub fn insert(&mut self, k: K, v: V) -> (r: Option<V>) ensures final(self)@ == old(self)@.insert(k, v) { unimplemented!() }
+    #[verifier::external_body]
+    pub fn swap_remove(&mut self, k: &K) -> (r: Option<V>)
+        ensures
+            final(self)@ == old(self)@.remove(*k),
+            match r { Some(v) => old(self)@.contains_key(*k) && v == old(self)@[*k], None => !old(self)@.contains_key(*k) },
+    { unimplemented!() }
+    #[verifier::external_body]
+    pub fn get_mut(&mut self, k: &K) -> (r: Option<&mut V>)
+        ensures
+            match r {
+                Some(v) => old(self)@.contains_key(*k) && *v == old(self)@[*k] && final(self)@ == old(self)@.insert(*k, *final(v)),
+                None => !old(self)@.contains_key(*k) && final(self)@ == old(self)@,
+            },
+    { unimplemented!() }
+}
+/// `guard.get_or_insert(OrderedMap::new())`: the map behind the lock, created empty if there was none
+#[verifier::external_body]
+pub fn opt_get_or_insert_new<K, V>(g: &mut Option<OrderedMap<K, V>>) -> (r: &mut OrderedMap<K, V>)
+    ensures r@ == omap(*old(g)), *final(g) == Some(*final(r)),
+{ unimplemented!() }
+/// `val.as_ref().map(|v| v.is_terminal())`
+#[verifier::external_body]
+pub fn opt_is_terminal(v: &Option<DeliveryState>) -> (r: Option<bool>)
+    ensures r == (match *v { Some(s) => Some(s.spec_is_terminal()), None => None::<bool> }),
+{ unimplemented!() }
+pub uninterp spec fn received_state_spec(section_number: u32, section_offset: u64) -> DeliveryState;
 pub struct ChanSender<T> { pub sent: Ghost<Seq<T>>, pub failures: Ghost<nat>, pub fulls: Ghost<nat> }
 impl<T> ChanSender<T> {
     #[verifier::external_body]
@@ -668,7 +697,7 @@ opaque!(Msg, SerdeErr);
 #[verifier::external_body]
 pub fn decode_message<P>(payload: P) -> (r: Result<Msg, SerdeErr>) { unimplemented!() }
 #[verifier::external_body]
-pub fn received_state(section_number: u32, section_offset: u64) -> (r: DeliveryState) { unimplemented!() }
+pub fn received_state(section_number: u32, section_offset: u64) -> (r: DeliveryState) ensures r == received_state_spec(section_number, section_offset) { unimplemented!() }
 pub struct RFlowS { pub credit: u32, pub count: u32 }
 impl RFlowS {
     /// [C09.enforce.overrun] / [C09.enforce.account] of unit LINKFLOW
@@ -715,6 +744,40 @@ impl ReceiverLinkT {
             &&& !presettled ==> omap(final(self).unsettled).dom() =~= omap(old(self).unsettled).dom().insert(r->Ok_0.delivery_tag)   // [C02.receiver.unsettled-recorded] an unsettled delivery is recorded in the receiver's unsettled map under its own tag
         }),
         final(self).local_state == old(self).local_state && final(self).rcv_settle_mode == old(self).rcv_settle_mode,
+//@@ end
+
+//@@ fn file=fe2o3-amqp/src/link/receiver_link.rs impl=`~impl<Tar>endpoint::ReceiverLinkforReceiverLink<Tar>` name=on_transfer_state
+//@@ nowhere
+//@@ subst `let mut guard = self.unsettled.write();` => `let mut guard = &mut self.unsettled;` rule=R4
+//@@ subst `guard.get_or_insert(OrderedMap::new())` => `opt_get_or_insert_new(&mut *guard)` rule=R15
+//@@ subst `val.as_ref().map(|v| v.is_terminal())` => `opt_is_terminal(&*val)` rule=R18
+//@@ spec
+    ensures
+        *delivery_tag is None ==> r == Err::<(), ReceiverTransferError>(ReceiverTransferError::DeliveryTagIsNone) && final(self).unsettled == old(self).unsettled,
+        *delivery_tag is Some ==> r is Ok && ({     // [C02.receiver.frame-state]
+            let k = (*delivery_tag)->Some_0;
+            let m0 = omap(old(self).unsettled);
+            let m1 = omap(final(self).unsettled);
+            let presettled = settled is Some && settled->Some_0;
+            let terminal = m0.contains_key(k) && m0[k] is Some && m0[k]->Some_0.spec_is_terminal();
+            &&& presettled ==> m1 == m0.remove(k)                               // [C02.receiver.frame-state.settled-forgotten] a frame of a delivery the sender has settled takes the delivery OUT of the receiver's unsettled map (and touches no other delivery)
+            &&& !presettled && terminal ==> m1 == m0                            // [C02.receiver.frame-state.terminal-is-final] once a delivery has attained a terminal outcome no later transfer frame alters it
+            &&& !presettled && !terminal ==> m1 == m0.insert(k, Some(state))    // [C02.receiver.frame-state.recorded-under-its-own-tag] the state a transfer frame carries is recorded on THAT delivery -- under its own tag -- and on no other
+        }),
+        final(self).local_state == old(self).local_state && final(self).rcv_settle_mode == old(self).rcv_settle_mode
+            && final(self).flow_state == old(self).flow_state && final(self).output_handle == old(self).output_handle,    // [C09.receiver.frame-state.no-credit-touched] a frame's delivery state is bookkeeping only: no credit is consumed, the link state is untouched
+//@@ end
+
+//@@ fn file=fe2o3-amqp/src/link/receiver_link.rs impl=`~impl<Tar>endpoint::ReceiverLinkforReceiverLink<Tar>` name=on_incomplete_transfer
+//@@ nowhere
+//@@ subst `DeliveryState::Received(Received { section_number, section_offset, })` => `received_state(section_number, section_offset)` rule=R11
+//@@ subst `let mut guard = self.unsettled.write();` => `let mut guard = &mut self.unsettled;` rule=R4
+//@@ subst `guard .get_or_insert(OrderedMap::new()) .insert(__E1, __E2)` => `opt_insert(&mut *guard, __E1, __E2)` rule=R15
+//@@ spec
+    ensures
+        omap(final(self).unsettled) == omap(old(self).unsettled).insert(delivery_tag, Some(received_state_spec(section_number, section_offset))),   // [C02.receiver.incomplete-recorded] [C10.receiver.incomplete-progress-recorded] a delivery whose last frame has not arrived is held as unsettled under its own tag, with how far it has been received (sections, offset) -- which is what a resuming sender is told -- and no other delivery's record changes
+        final(self).flow_state == old(self).flow_state,                                                                                             // [C09.receiver.incomplete-takes-no-credit] a frame that does not complete a delivery consumes no link credit and does not advance delivery-count
+        final(self).local_state == old(self).local_state && final(self).rcv_settle_mode == old(self).rcv_settle_mode && final(self).output_handle == old(self).output_handle,
 //@@ end
 }
 
